@@ -264,7 +264,7 @@ fn hist_case(line: &str) -> Vec<String> {
     out
 }
 
-/// results only (no trace recording): `RES <id> <RESULT ...>` per case, on `threads` threads, in the given order
+/// results only (no trace recording): CASE / RESULT / END per case, on `threads` threads, in the given order
 fn cmd_results(path: &str, threads: usize) {
     let lines: Vec<String> = std::io::BufReader::new(std::fs::File::open(path).unwrap())
         .lines()
@@ -283,7 +283,7 @@ fn cmd_results(path: &str, threads: usize) {
                             .map(|l| {
                                 let m = kv(l);
                                 let mut g = mk_generator(&m);
-                                format!("RES {} {}", m["id"], run_src(&mut g, &m["src"]))
+                                format!("CASE {}\n{}\nEND", l, run_src(&mut g, &m["src"]))
                             })
                             .collect::<Vec<String>>()
                     })
